@@ -2,7 +2,7 @@
    The model decoder is a total function (Coq accepts it), so "returns a term or an error value" is by construction
    once fuel exhaustion — the one artificial outcome — is shown unreachable.  Process-level effects (stack depth,
    allocator requests) are measured on the implementation by the harness; see DESIGN.md. *)
-From EDP Require Import Base.Bytes Term.Term Gen.Tags Gen.DecoderArms Codec.Decode Codec.DecodeFacts.
+From EDP Require Import Base.Bytes Term.Term Gen.Tags Gen.DecoderArms Codec.Decode Codec.DecodeFacts Gen.Prealloc Codec.PreallocFacts.
 
 (* for every byte string, every oracle and either arm table, decode yields a term, a decode error or trailing data:
    never the model's out-of-fuel value *)
@@ -26,5 +26,13 @@ Proof. intros cfg f k n bs. exact (seq_with_nofuel (parse cfg f) k (parse_consum
 (* more fuel never changes an answer *)
 Theorem C02_fuel_irrelevant : forall cfg f g bs t r, (f <= g)%nat -> parse cfg f bs = POk t r -> parse cfg g bs = POk t r.
 Proof. intros cfg f g bs t r H. exact (parse_mono cfg f g H bs t r). Qed.
+
+(* the allocations made before a sequence is read: every `with_capacity` site of the decoder, as the translator found it
+   in the source, is a constant or the announced count capped by the bytes that are left (Gen/Prealloc.v) *)
+Theorem C02_preallocations_capped : forallb (fun s => snd s) prealloc_sites = true.
+Proof. exact preallocations_capped. Qed.
+
+Theorem C02_preallocations_listed : (8 <= length prealloc_sites)%nat.
+Proof. exact preallocations_listed. Qed.
 
 Check C02_decode_total : forall cfg data, decode cfg data <> DErr KFuel.
